@@ -3,12 +3,12 @@
   the completing worker and any number of polling tasks, interleaved at the granularity of the
   individual accesses to the three shared cells (status, done flag, waker slot under its mutex).
 
-  done(status)  (acknowledgement.rs:98-104, after the `fix:` commit that stores the status first):
+  done(status)  (acknowledgement.rs:99-111, after the `fix:` commit that stores the status first):
       [setStatus]  *self.status.lock() = status
       [setFlag]    self.done.store(true, Release)
       [wake]       if let Some(w) = &self.waker_state.lock().waker { w.wake_by_ref() }   -- one critical section
 
-  poll(context) (acknowledgement.rs:113-129):
+  poll(context) (acknowledgement.rs:120-150):
       [lockRegister]  guard = waker_state.lock(); register context.waker() unless the stored one will_wake it
       [loadFlag]      self.done.load(Acquire)
       [readStatus]    Ready(*self.status.lock())   -- or Pending; the guard is dropped on return
